@@ -146,3 +146,4 @@ M("c13-tickformat-memo-by-count", ["C13"], (SC, "    def tickFormat(self, m=None
 E("eq-removeoverlap-imported-by-name", ["C01", "C02", "C03"], (FO, "from . import removeOverlap\n", "from . import removeOverlap\nfrom .removeOverlap import removeOverlap as _solve_layer\n"), (FO, "            removeOverlap.removeOverlap(nodes, simOptions)", "            _solve_layer(nodes, simOptions)"))
 M("c06-tie-order-by-str-hash", ["C06"], (DI, "                nodesInCurrentLayer.sort(\n                    key=lambda x: x.overlapCount, reverse=True\n                )", "                nodesInCurrentLayer = list({str(x.idealPos) + \"/\" + str(id(x)): x for x in nodesInCurrentLayer}.values()) if False else sorted(nodesInCurrentLayer, key=lambda x: hash(str(x.idealPos)))\n                nodesInCurrentLayer.sort(\n                    key=lambda x: x.overlapCount, reverse=True\n                )"))
 E("eq-tikz-layer-comments-changed", ["C07", "C09", "C11", "C08"], (TL, '        doc.append("% link layer")\n', '        doc.append("% links between dots and labels")\n        doc.append("")\n'), (TL, '        doc.append("% dots")\n', ""), (TL, '        doc.append("% label layer")\n', '        doc.append("% labels")\n'))
+M("c04-revert-getlayers-fix", ["C04"], (FO, "        self.layers = layers\n", ""))
